@@ -787,6 +787,29 @@ def witness_real_position_skip():
             "max_iter": 1000}
 
 
+def witness_multiaxis_size():
+    """seed C27i: a multi-axis SizeConstraint of which one axis is already known statically (so only the OTHER axis makes
+    progress in the pass), the object centred on its reference along the constrained axis, the reference placed by a
+    constraint listed later; every position of the pre-given axis inside the constraint's axis list"""
+    out = []
+    for axes, given in (((0, 1), 1), ((0, 1), 0), ((1, 0), 0), ((2, 0), 0), ((1, 2), 2), ((0, 1, 2), 2), ((0, 1, 2), 1)):
+        bshape = (6, 8, 4)
+        ag = [None, None, None]
+        ag[given] = bshape[given]
+        free = [a for a in axes if a != given]
+        o = lambda n, v=False, g=(2, 2, 2): {"name": n, "vol": v, "gshape": list(g), "rshape": [None] * 3, "rpos": [None] * 3}
+        P = lambda i, j, ax: {"t": "P", "o": i, "other": j, "axes": list(ax), "own": [0.0] * len(ax), "otherpos": [0.0] * len(ax),
+                              "margins": [0.0] * len(ax), "gmargins": [0] * len(ax)}
+        out.append({"grid": {"kind": "uniform", "spacing": 1.0},
+                    "objects": [o("vol", True, (20, 20, 20)), o("B", g=bshape), o("A", g=ag)],
+                    "constraints": [P(2, 1, free),
+                                    {"t": "S", "o": 2, "other": 1, "axes": list(axes), "other_axes": list(axes),
+                                     "props": [1.0] * len(axes), "offsets": [0.0] * len(axes), "goffsets": [0] * len(axes)},
+                                    P(1, 0, (0, 1, 2))],
+                    "max_iter": 1000})
+    return out
+
+
 def witness_volume_bound():
     """extend_to(None) is visited before the constraint that gives the volume its upper bound"""
     o = lambda n, v=False, g=(2, 2, 2): {"name": n, "vol": v, "gshape": list(g), "rshape": [None] * 3, "rpos": [None] * 3}
